@@ -20,6 +20,10 @@ type C20Item struct {
 	Key   string `json:"key,omitempty"`
 	Val   *sq.E  `json:"val,omitempty"`   // set: value expression (may contain GETVAR calls); col: column reference
 	Alias string `json:"alias,omitempty"` // get / col
+	// caseset: CASE WHEN Cond THEN SETVAR(Key, Val) ELSE SETVAR(Key2, Val2) END - only the branch taken writes
+	Cond *sq.E  `json:"cond,omitempty"`
+	Key2 string `json:"key2,omitempty"`
+	Val2 *sq.E  `json:"val2,omitempty"`
 }
 
 type C20Query struct {
@@ -130,6 +134,13 @@ func genC20(t *rapid.T) any {
 				}
 				continue
 			}
+			if rapid.IntRange(0, 7).Draw(t, il+".caseset") == 0 {
+				k1 := rapid.SampledFrom([]string{"k1", "k2"}).Draw(t, il+".ck1")
+				k2 := rapid.SampledFrom([]string{"k1", "k2", "k3"}).Draw(t, il+".ck2")
+				q.Items = append(q.Items, C20Item{Kind: "caseset", Key: k1, Val: genC20Value(t, k1, il+".cv1"), Key2: k2, Val2: genC20Value(t, k2, il+".cv2"),
+					Cond: sq.Cmp(rapid.SampledFrom([]string{">", "<", "="}).Draw(t, il+".cop"), sq.Col("a"), sq.Num(rapid.SampledFrom([]float64{1, 2, 3}).Draw(t, il+".cc")))})
+				continue
+			}
 			switch kindDraw {
 			case 0, 1, 2:
 				k := rapid.SampledFrom([]string{"k1", "k2", "k3"}).Draw(t, il+".key")
@@ -161,7 +172,7 @@ func genC20(t *rapid.T) any {
 						}
 					})
 				}
-				if it.Kind == "getsub" || usesRow {
+				if it.Kind == "getsub" || it.Kind == "caseset" || usesRow {
 					continue
 				}
 				items = append(items, it)
@@ -236,6 +247,8 @@ func (q *C20Query) sql() string {
 		switch it.Kind {
 		case "set":
 			parts = append(parts, "SETVAR("+sq.StrLit(it.Key)+", "+sq.Render(it.Val, nil)+")")
+		case "caseset":
+			parts = append(parts, "CASE WHEN "+sq.Render(it.Cond, nil)+" THEN SETVAR("+sq.StrLit(it.Key)+", "+sq.Render(it.Val, nil)+") ELSE SETVAR("+sq.StrLit(it.Key2)+", "+sq.Render(it.Val2, nil)+") END")
 		case "get":
 			parts = append(parts, "GETVAR("+sq.StrLit(it.Key)+") AS "+it.Alias)
 		case "getsub":
@@ -378,6 +391,30 @@ func checkC20(c *C20Case) Result {
 				}
 				out := map[string]any{}
 				for _, it := range q.Items {
+					if it.Kind == "caseset" {
+						res.Labels = append(res.Labels, "setvar-in-case-branches")
+						taken, err := sq.EvalBool(it.Cond, row, env)
+						if err != nil {
+							res.Harness = "reference CASE condition: " + err.Error()
+							return res
+						}
+						key, valE := it.Key, it.Val
+						if !taken {
+							key, valE = it.Key2, it.Val2
+						}
+						v, err := sq.Eval(valE, row, env)
+						if err != nil {
+							if u, ok := err.(*sq.ErrUnspecified); ok {
+								res.Discard = u.Why
+								return res
+							}
+							res.Harness = "reference SETVAR value: " + err.Error()
+							return res
+						}
+						model[key] = v
+						writer[key] = stamp{qi, ri}
+						continue
+					}
 					switch it.Kind {
 					case "set":
 						it.Val.Walk(func(e *sq.E) {
